@@ -1,4 +1,5 @@
 import Gtree.Lemmas.SourceConfig
+import Gtree.Lemmas.HeapCompose
 import Gtree.Lemmas.HeapMkdir
 import Gtree.Lemmas.HeapGrower
 import Gtree.Lemmas.SourceRefines
@@ -270,4 +271,22 @@ theorem C07_mkdirer_is_the_source (dm : SrcH.defaultMkdirerSimple) (h : SrcH.Hea
       some ((mkdirRoots fs dm.targetDir dm.fileConsiderer.extensions (SrcH.rootVisits h ts rs)).1,
             SrcH.mkErrSrc (mkdirRoots fs dm.targetDir dm.fileConsiderer.extensions (SrcH.rootVisits h ts rs)).2) :=
   SrcH.mkdir_heap dm h ts fs rs fuel hr hf
+end Gtree
+
+namespace Gtree
+/-- "Validates first" on the translated code (heap mode, regenerated on every run): in the composition grow-then-mkdir of
+    `treeSimple.mkdir`, every node of every root has been validated by the translated grower — in pre-order over the
+    whole forest — before the translated mkdirer issues its first `MkdirAll` / `Create`: the grower returns the model's
+    first validation error, and only when there is none does the mkdirer run, on exactly the visits that were
+    validated. -/
+theorem C07_validates_before_creating_in_the_source (dg : SrcH.defaultGrowerSimple) (dm : SrcH.defaultMkdirerSimple) (ts : List T) (h : SrcH.Heap) (fs : FS)
+    (rs : List Go.Ptr) (fuel : Nat) (hv : dg.enabledValidation = true)
+    (hr : SrcH.ReprRoots h ts rs) (hnd : (SrcH.ptrsKids h ts rs).Nodup) (hf : 2 * sizeList ts + 1 ≤ fuel) :
+    ∃ h', SrcH.defaultGrowerSimple.grow fuel h dg rs =
+        some (h', (validateVisits (ts.map (growRoot (SrcH.fmtOf dg))).flatten).map verrSrc) ∧
+      (validateVisits (ts.map (growRoot (SrcH.fmtOf dg))).flatten = none →
+        SrcH.defaultMkdirerSimple.mkdir fuel h' fs dm rs =
+          some ((mkdirRoots fs dm.targetDir dm.fileConsiderer.extensions (ts.map (growRoot (SrcH.fmtOf dg)))).1,
+                SrcH.mkErrSrc (mkdirRoots fs dm.targetDir dm.fileConsiderer.extensions (ts.map (growRoot (SrcH.fmtOf dg)))).2)) :=
+  SrcH.grow_then_mkdir dg dm ts h fs rs fuel hv hr hnd hf
 end Gtree
